@@ -87,4 +87,32 @@ def sigOf : Ev → Option Sig
   | .sig s => some s
   | _ => none
 
+/-! ## Between os/signal and a listener goroutine: the channel
+
+`signal.Notify` never blocks: a signal that finds the listener's channel full is dropped. `exit.Listen` gives each
+listener a channel of capacity 1 for three signals. The event-level machine above (`stepListener`) describes what
+the goroutine does with the signals it *receives*; this level says which ones it receives. `quit` is not a buffered
+signal (a closed channel stays closed), so `exitCall` is never dropped. -/
+
+/-- what happens at the process, finer than `Ev`: a signal (or an `Exit` call) arrives, or the goroutine gets to
+run and handles everything that is buffered -/
+inductive Act where
+  | arrives (e : Ev)
+  | runs
+deriving DecidableEq, Repr
+
+/-- delivery into a channel of capacity `cap` that currently holds `q` -/
+def deliver (cap : Nat) (q : List Ev) (e : Ev) : List Ev :=
+  if e = .exitCall then q ++ [e] else if q.length < cap then q ++ [e] else q
+
+def stepAct (c : ListenContract) (cap : Nat) (st : LState × List Ev) : Act → LState × List Ev
+  | .arrives e => (st.1, deliver cap st.2 e)
+  | .runs => (st.2.foldl (fun l e => stepListener c e l) st.1, [])
+
+def runActs (c : ListenContract) (cap : Nat) (acts : List Act) : LState × List Ev :=
+  acts.foldl (stepAct c cap) (.waiting false, [])
+
+/-- every arrival is handled before the next one: the schedule the event-level machine assumes -/
+def sequential (es : List Ev) : List Act := es.flatMap (fun e => [.arrives e, .runs])
+
 end Fabio.Model.C18Exit
